@@ -498,6 +498,8 @@ pub enum BOp {
     Build,
     /// later builds use this key (same builder object, another key)
     UseKey(Box<KeyMat>),
+    /// arm / clear the injected RNG failure (hook verif::set_rng_fault, per thread): builds of local tokens in between fail in the sealing step
+    RngFault(bool),
 }
 
 /// validator behaviours (C16); the closure reads its behaviour from a thread-local table
@@ -1417,6 +1419,9 @@ macro_rules! impl_proto {
                         BOp::UseKey(k2) => {
                             cur_key = (**k2).clone();
                         }
+                        BOp::RngFault(on) => {
+                            rusty_paseto::verif::set_rng_fault(*on);
+                        }
                         BOp::Build => {
                             let (o, _) = guard(
                                 || -> Result<String, HErr<GenericBuilderError>> { seal_keys!($kind, $V, (&cur_key), |k| b.build(&k).map_err(HErr::Lib)) },
@@ -1426,6 +1431,7 @@ macro_rules! impl_proto {
                         }
                     }
                 }
+                rusty_paseto::verif::set_rng_fault(false);
                 outs
             }
             fn batteries_session(key: &KeyMat) -> Box<dyn BSession> {
@@ -1465,6 +1471,10 @@ macro_rules! impl_proto {
                                 None
                             }
                             BOp::UseKey(_) => None,
+                            BOp::RngFault(on) => {
+                                rusty_paseto::verif::set_rng_fault(*on);
+                                None
+                            }
                             BOp::Build => {
                                 let (o, _) = guard(
                                     || -> Result<String, HErr<GenericBuilderError>> { seal_keys!($kind, $V, key, |k| b.build(&k).map_err(HErr::Lib)) },
